@@ -78,7 +78,7 @@ StateNames(h, cls) == [i \in 1..Len(States(h, cls)) |-> States(h, cls)[i].n]
 Descriptions(h, cls) == [i \in 1..Len(States(h, cls)) |-> [n |-> States(h, cls)[i].n, c |-> States(h, cls)[i].c]]
 
 (* ---- signatures ---- *)
-Params == {"self", "tm", "state_tm", "initial_call", "x", "*args", "**kwargs", "*, kw"}
+Params == {"self", "tm", "state_tm", "initial_call", "x", "*args", "**kwargs", "*, kw", "*, tm", "*, state_tm=0.0"}
 Legal == {"tm", "state_tm", "initial_call"}
 SigSeqs == {s \in SeqsUpTo(Params, 4) : \A i, j \in 1..Len(s) : i # j => s[i] # s[j]}
 \* (a parameter list that Python itself rejects - something after **kwargs, *args after keyword-only -
